@@ -78,3 +78,16 @@ mut('C12', 'join-strips-interior-plus', [('utils.py', "        terms[0] = terms[
 mut('C12', 'join-minus-becomes-plus', [('utils.py', "        if not term[0] in ('+', '-'):\n            term = '+' + term", "        if not term[0] in ('+',):\n            term = '+' + term.lstrip('-')")], ['normalised_so_far', 'value_is_the_sum_of_the_pieces'])
 ben('C12', 'rhs-generator-join', [('equation.py', "        out = [str(s) for s in self.TermList]\n        out = ''.join(out)", "        pieces = [str(s) for s in self.TermList]\n        out = ''.join(pieces)")])
 ben('C12', 'str-reordered-tests', [('equation.py', "        if self.Constant == 1.0:\n            lead = '+'\n        elif self.Constant == -1:\n            lead = '-'", "        if self.Constant == -1:\n            lead = '-'\n        elif self.Constant == 1.0:\n            lead = '+'")])
+
+# ---- C13 ---------------------------------------------------------------------------------------------
+mut('C13', 'replace-substring', [('utils.py', "            if toknum == NAME and tokval == target:  # replace NAME tokens\n                result.append((NAME, replacement))\n            else:\n                result.append((toknum, tokval))\n        return untokenize(result).decode('utf-8')\n    else:  # pragma: no cover   [Do my coverage on Python 3]\n        g = tokenize.generate_tokens(BytesIO(s.encode('utf-8')).readline)  # tokenize the string\n        for toknum, tokval, _, _, _ in g:\n            if toknum == NAME and tokval == target:",
+     "            if toknum == NAME and tokval.startswith(target):  # replace NAME tokens\n                result.append((NAME, replacement))\n            else:\n                result.append((toknum, tokval))\n        return untokenize(result).decode('utf-8')\n    else:  # pragma: no cover   [Do my coverage on Python 3]\n        g = tokenize.generate_tokens(BytesIO(s.encode('utf-8')).readline)  # tokenize the string\n        for toknum, tokval, _, _, _ in g:\n            if toknum == NAME and tokval == target:")], 'element_wise')
+mut('C13', 'lookup-any-token-type', [('utils.py', "            if toknum == NAME and tokval in lookup:  # replace NAME tokens\n                result.append((NAME, lookup[tokval]))\n            else:\n                result.append((toknum, tokval))\n        return untokenize(result).decode('utf-8')",
+     "            if tokval in lookup:  # replace NAME tokens\n                result.append((NAME, lookup[tokval]))\n            else:\n                result.append((toknum, tokval))\n        return untokenize(result).decode('utf-8')")], 'element_wise')
+mut('C13', 'lookup-chained', [('utils.py', "            if toknum == NAME and tokval in lookup:  # replace NAME tokens\n                result.append((NAME, lookup[tokval]))\n            else:\n                result.append((toknum, tokval))\n        return untokenize(result).decode('utf-8')",
+     "            if toknum == NAME and tokval in lookup:  # replace NAME tokens\n                new = lookup[tokval]\n                if new in lookup:\n                    new = lookup[new]\n                result.append((NAME, new))\n            else:\n                result.append((toknum, tokval))\n        return untokenize(result).decode('utf-8')")], 'element_wise')
+mut('C13', 'list-tokens-dedup', [('utils.py', "            if toknum == NAME:  # find NAME tokens\n                result.append(tokval)\n    else:", "            if toknum == NAME and tokval not in result:  # find NAME tokens\n                result.append(tokval)\n    else:")], ['one_entry_per_name_token', 'entries_in_order'])
+mut('C13', 'equation-skips-first-term', [('equation.py', "        for t in self.TermList:\n            t.ReplaceTokensFromLookup(lookup)", "        for t in self.TermList[1:]:\n            t.ReplaceTokensFromLookup(lookup)")], ['renamed_so_far', 'every_term_renamed', 'ReplaceTokensFromLookup'])
+mut('C13', 'term-blob-not-renamed', [('equation.py', "            if self.IsBlob:\n                self.Term = replace_token_from_lookup(self.Term, lookup)\n                return", "            if self.IsBlob:\n                return")], 'text_renamed')
+ben('C13', 'list-tokens-rename-local', [('utils.py', "    result = []\n    if is_python_3:\n        g = tokenize.tokenize(BytesIO(s.encode('utf-8')).readline)  # tokenize the string\n        for toknum, tokval, _, _, _ in g:\n            if toknum == NAME:  # find NAME tokens\n                result.append(tokval)",
+     "    result = []\n    if is_python_3:\n        g = tokenize.tokenize(BytesIO(s.encode('utf-8')).readline)  # tokenize the string\n        for toknum, tokval, _, _, _ in g:\n            if NAME == toknum:\n                result.append(tokval)")])
